@@ -27,6 +27,16 @@ for pid in ids:
         continue
     m = meta["claimed"][pid]
     level = eng["levels"].get(pid, "exploration")
+    # parts: further engines run by the same command, reported under this property id
+    parts = eng["engines"][claimed[pid]].get("parts", {}).get(pid, [])
+    note = m["note"]
+    if parts:
+        owners = {p: n for n, e in eng["engines"].items() for p in e["props"]}
+        descr = []
+        for p in parts:
+            pm = meta["claimed"].get(p, {})
+            descr.append(f"{p} (engine {owners.get(p, '?')}): " + (pm.get("text", "") or eng["engines"].get(owners.get(p, ""), {}).get("kind", ""))[:600])
+        note += " PARTS run by the same command and reported under this property (coverage.parts of the evidence): " + " | ".join(descr)
     checks.append({
         "property_id": pid,
         "quick_cmd": f"./check {pid} quick",
@@ -35,7 +45,7 @@ for pid in ids:
         "replay_cmd_template": f"./check {pid} --replay {{path}}",
         "engine": claimed[pid],
         "level_claimed": {"category": level, "text": m["text"], "design_ref": m.get("design_ref", "DESIGN.md §5 " + pid)},
-        "level_note": m["note"],
+        "level_note": note,
         "technique": m.get("technique", "deterministic simulation with fault injection: seeded search over schedules and fault sequences, oracle on recorded history, tape minimisation and replay"),
     })
 na = [{"property_id": pid, "reason": meta["not_applicable"][pid]} for pid in ids if pid not in claimed]
